@@ -8,7 +8,7 @@
    Spec    Spec/WfDesign.v:wf_design (one named error per fault class of the statement).
    Tie     Corr/C02E.v, on every base design and single-fault mutant of the C02 stream: verdict AND rejecting pass.
 
-   Hypotheses (boolean, evaluated on every case by the correspondence run):
+   The hypotheses (boolean, evaluated on every case by the correspondence run):
      given_e d   what Python guarantees by construction and the printer by its invariant (Model/C02Checks.v:given: dict keys
                  unique, declared widths positive, Signal leaves annotated with the Signal's width) + ports of leaf devices at
                  least one bit wide + a reference leaf annotated with the width of the port it names;
